@@ -17,6 +17,14 @@ CLAIMED = {
         "in fv/grammar.py as specification.",
         "DESIGN.md §5 C01",
     ),
+    "C09": (
+        "SMT (z3 linear integer arithmetic) implication between template link conditions (Jinja AST) and page-creation conditions (Python AST)",
+        "For every statically known internal URL in the real templates the enclosing template conditions imply the page-creation "
+        "condition extracted from Documentation.__init__/writeout, for all project shapes (unbounded sizes) and flags; models are "
+        "replayed by a real FORD run on a generated project and a link check of the written HTML.",
+        "Trusted: z3 LIA, the Jinja/Python AST condition translators (untranslatable conditions are left unconstrained = link may be emitted).",
+        "DESIGN.md §5 C09",
+    ),
 }
 
 NOT_APPLICABLE = {
